@@ -171,27 +171,46 @@ def _register_fn(
     name: str,
     expr: sympy.Expr,
     args: list[str],
+    taken: frozenset[str] = frozenset(),
 ) -> str:
-    """Register a function of the generated module under a name of its own.
+    """Register a helper function of the generated module under a name of its own.
 
     Helper names (init_<x>, <reaction>_stoich_<compound>) share one namespace with the
-    functions named after components; a name that is taken by another function gets
-    underscores appended.
+    functions named after components (taken); a name that belongs to another function
+    gets underscores appended.
     """
-    while name in _RESERVED_FN_NAMES or (
-        name in functions and functions[name] != (expr, args)
+    while (
+        name in _RESERVED_FN_NAMES
+        or name in taken
+        or (name in functions and functions[name] != (expr, args))
     ):
         name = f"{name}_"
     functions[name] = (expr, args)
     return name
 
 
+def _register_component_fn(
+    functions: dict[str, tuple[sympy.Expr, list[str]]],
+    name: str,
+    expr: sympy.Expr,
+    args: list[str],
+) -> str:
+    """Register the function of a derived quantity or reaction under its own name."""
+    while name in _RESERVED_FN_NAMES:
+        name = f"{name}_"
+    functions[name] = (expr, args)
+    return name
+
+
 def _codegen_variable(
-    k: str, var: SymbolicVariable, functions: dict[str, tuple[sympy.Expr, list[str]]]
+    k: str,
+    var: SymbolicVariable,
+    functions: dict[str, tuple[sympy.Expr, list[str]]],
+    taken: frozenset[str] = frozenset(),
 ) -> str:
     if isinstance(init := var.value, SymbolicFn):
         fn_name = _register_fn(
-            functions, f"init_{init.fn_name}", init.expr, init.args
+            functions, f"init_{init.fn_name}", init.expr, init.args, taken
         )
         return f"""        .add_variable(
             {k!r},
@@ -205,11 +224,14 @@ def _codegen_variable(
 
 
 def _codegen_parameter(
-    k: str, par: SymbolicParameter, functions: dict[str, tuple[sympy.Expr, list[str]]]
+    k: str,
+    par: SymbolicParameter,
+    functions: dict[str, tuple[sympy.Expr, list[str]]],
+    taken: frozenset[str] = frozenset(),
 ) -> str:
     if isinstance(init := par.value, SymbolicFn):
         fn_name = _register_fn(
-            functions, f"init_{init.fn_name}", init.expr, init.args
+            functions, f"init_{init.fn_name}", init.expr, init.args, taken
         )
         return f"""        .add_parameter(
             {k!r},
@@ -233,21 +255,25 @@ def generate_mxlpy_code_from_symbolic_repr(
     imports = [] if imports is None else imports
 
     functions: dict[str, tuple[sympy.Expr, list[str]]] = {}
+    # names of the functions of derived quantities and reactions: helper names avoid them
+    taken = frozenset(fn.fn_name for fn in model.derived.values()) | frozenset(
+        rxn.fn.fn_name for rxn in model.reactions.values()
+    )
 
     # Variables
     variable_source = []
     for k, var in model.variables.items():
-        variable_source.append(_codegen_variable(k, var, functions=functions))
+        variable_source.append(_codegen_variable(k, var, functions=functions, taken=taken))
 
     # Parameters
     parameter_source = []
     for k, par in model.parameters.items():
-        parameter_source.append(_codegen_parameter(k, par, functions=functions))
+        parameter_source.append(_codegen_parameter(k, par, functions=functions, taken=taken))
 
     # Derived
     derived_source = []
     for k, fn in model.derived.items():
-        fn_name = _register_fn(functions, fn.fn_name, fn.expr, fn.args)
+        fn_name = _register_component_fn(functions, fn.fn_name, fn.expr, fn.args)
         derived_source.append(
             f"""        .add_derived(
                 {k!r},
@@ -260,13 +286,19 @@ def generate_mxlpy_code_from_symbolic_repr(
     reactions_source = []
     for k, rxn in model.reactions.items():
         fn = rxn.fn
-        rxn_fn_name = _register_fn(functions, fn.fn_name, fn.expr, fn.args)
+        rxn_fn_name = _register_component_fn(
+            functions, fn.fn_name, fn.expr, fn.args
+        )
 
         stoichiometry: list[str] = []
         for var, stoich in rxn.stoichiometry.items():
             if isinstance(stoich, SymbolicFn):
                 fn_name = _register_fn(
-                    functions, f"{k}_stoich_{stoich.fn_name}", stoich.expr, stoich.args
+                    functions,
+                    f"{k}_stoich_{stoich.fn_name}",
+                    stoich.expr,
+                    stoich.args,
+                    taken,
                 )
                 stoichiometry.append(
                     f""""{var}": Derived(fn={fn_name}, args={stoich.args!r})"""
